@@ -34,20 +34,58 @@ RULE = ("random API histories as for C01 (create/rename/flag/array/move/remove v
 
 
 def generate(rng, tier):
+    from props import wsext
+
     n = 60 if tier == "quick" else 1500
-    return [{"ops": W.gen_history(rng.fork(1000 + i), rng.range(10, 28), {"final_sweeps": i % 2 == 0})} for i in range(n)]
+    cases = [{"ops": W.gen_history(rng.fork(1000 + i), rng.range(10, 28), {"final_sweeps": i % 2 == 0})} for i in range(n)]
+    m = 40 if tier == "quick" else 1000
+    cases += [{"ext": True, "ops": wsext.gen_ext_history(rng.fork(6000 + i), rng.range(20, 36))} for i in range(m)]
+    return cases
 
 
 def drive_one(case, work):
+    if case.get("ext"):
+        from props import wsext
+
+        return wsext.run_ext_history(case["ops"], work, "c02x")
     return W.run_history(case["ops"], work, "c02")
 
 
 def case_term(case, obs):
+    if case.get("ext"):
+        return None
     return W.history_case_term(case["ops"], obs["steps"])
 
 
 def model_term(case):
+    if case.get("ext"):
+        return None
     return "trace init %s" % W.clist(W.cop(o) for o in case["ops"])
+
+
+def oracle_ext(case, obs):
+    """validator at every close of both workspaces; orphans are the recorded defect only when the node belongs to an
+    entity that an earlier remove_children detached (or to a descendant: those carry no parent link from a live node)"""
+    detached = set()
+    for st in obs["steps"]:
+        detached.update(st["info"].get("detached", []) or [])
+    fails, seen = [], set()
+    for per_ws in obs["validations"] + [obs["final_validation"]]:
+        for fl in per_ws:
+            orphan_nodes = {f["node"].split("/")[1].strip("{}") for f in fl if f["key"].startswith("orphan-")}
+            explained = bool(orphan_nodes & detached) or not orphan_nodes
+            for f in fl:
+                k = f["key"]
+                if k.startswith("orphan-") and detached and explained:
+                    key = "orphan-after-remove-via-parent"
+                elif k == "property-group-foreign-data":
+                    key = "pg-lists-removed-data"
+                else:
+                    key = k
+                if key not in seen:
+                    seen.add(key)
+                    fails.append({"key": key, "what": f["what"]})
+    return fails
 
 
 def _removed_via_parent(ops, steps):
@@ -104,6 +142,8 @@ def _key_of_path(path):
 def oracle(case, obs):
     if "crash" in obs:
         return [{"key": "driver-crash", "what": obs["crash"][:300]}]
+    if case.get("ext"):
+        return oracle_ext(case, obs)
     ops, steps = case["ops"], obs["steps"]
     for i, st in enumerate(steps):
         if str(st["outcome"]).startswith("error"):
@@ -140,7 +180,7 @@ def histogram(cases, obs):
     keys = {}
     for o in obs:
         for fl in (o.get("validations", []) + [o.get("final_validation", [])]) if isinstance(o, dict) else []:
-            for f in fl:
+            for f in (fl if not o.get("ext") else [x for w in fl for x in w]):
                 keys[f["key"]] = keys.get(f["key"], 0) + 1
     h["validator_failures"] = keys
     return h
